@@ -22,6 +22,7 @@ import (
 	"golang.org/x/telemetry/internal/verifshim/sched"
 	"golang.org/x/telemetry/internal/verifshim/vatomic"
 	"golang.org/x/telemetry/internal/verifshim/vos"
+	"golang.org/x/telemetry/internal/verifshim/vrand"
 )
 
 var zzvT0 = time.Date(2024, 1, 3, 12, 0, 0, 0, time.UTC) // a Wednesday
@@ -57,6 +58,7 @@ func zzvNewWorld(base string, mode string) *zzvWorld {
 		os.WriteFile(telemetry.Default.ModeFile(), []byte(mode), 0o666)
 	}
 	CounterTime = func() time.Time { return w.now }
+	vrand.IntnHook = func(n int) int { return 3 % n } // the week-end day drawn when the weekends file must be created
 	CrashOnBugs = false
 	vos.Poison = true
 	vatomic.AddrCheck = vos.CheckAddr
